@@ -1,5 +1,10 @@
 """C09 — bounding boxes and convex hulls are exact for any hierarchy."""
 CONFIG = {
+    "manifest": {
+        "level_text": "Coq theorems, closed under the global context, over an exact rational model that mirrors Polygon/Label::bounding_box, Reference::repeat_and_transform / bounding_box / convex_hull, Cell::bounding_box(cache) / convex_hull(cache) with the GeometryInfo cache, and the gdstk::convex_hull wrapper statement by statement (tree after the fixes cd7171e and d7329ad). Proved for ALL inputs: bbox is the smallest box (inverted iff empty); element boxes with any repetition given the C11 facts; the quarter-turn branch (four corners) is exact when cos*sin = 0 and never under-reports for any cos/sin; the hull branch is exact for every affine placement given a hull meeting the contract; the wrapper meets the contract on EVERY input (fewer than 4 points, qhull error branch, collinear fallback with the two extreme input points) given qhull's contract on the inputs it really receives; hence, by induction over any acyclic hierarchy with unique names, Cell::bounding_box is the smallest box of the flattened geometry and Cell/Reference::convex_hull has only geometry points as corners and contains all geometry, for ANY valid cache, and any interleaving of cached cell/reference box/hull queries answers like a fresh cache (cache_transparent). Regression examples: the old collinear fallback and the old extrema-only hull path are refuted on the F10/F9 witnesses. The model is tied to /repo on every run by the extracted model evaluated on the same hierarchies and query scripts as the real library, plus an oracle from the library's own flattening.",
+        "level_note": "Assumed as Section hypothesis: qhull's contract (corners are input points, every input is a convex combination of the corners) on non-degenerate inputs — validated on every hull the library returns in each run (harness oracle), with an exact monotone-chain hull standing in for qhull in the model run. Premises of the hierarchy theorems: unique cell names, the C11 facts for every repetition (extrema are offsets, same box, origin is an offset), quarter flag => cos*sin = 0, and for reference repetitions that are not Explicit that the extrema cover the offsets (proved for lattice / segment shapes by parallelogram_cover; not linked to C11's model). Only validated per run: cos/sin/is_multiple_of_pi_over_2 values, get_offsets/get_extrema lists and FlexPath::to_polygons output enter the model as data; double rounding (comparison on a 2^-20 grid; real quarter turns have cos(pi/2)=6e-17, covered by the never-under-reports theorem, not by the exactness theorem); the qh_POINTSmax split and RobustPath are not modelled. Trusted: Coq kernel, extraction, harness, driver.",
+        "technique": "Coq proof over an exact-rational statement-level model (support-function / half-plane cover argument, nested induction over the cell tree with a cache invariant) + differential run of the extracted model against the library + flattening oracle",
+    },
     "prop_file": "Properties_C09",
     "extract_file": "Extract_C09",
     "extracted": ["c09"],
